@@ -1,5 +1,5 @@
 """Registry: property id -> check function(prop, tier, verdict) -> (level, coverage, assumptions)."""
-import eng_sess, eng_hub, eng_disp, eng_corr, eng_data
+import eng_sess, eng_hub, eng_disp, eng_corr, eng_data, eng_plug
 
 SESS_ASSUME = [
     'the in-memory connection of the harness behaves like a reliable byte stream (delivered bytes stay readable after the peer closes; writes fail after a close)',
@@ -71,6 +71,15 @@ def c11(prop, tier, verdict):
                                 'protobuf / thrift values are the message types shipped in the repository',
                                 'garbage: empty, random, every truncation, one bit flipped at every offset, overflowing element counts, wrongly typed tokens; memory safety is observed through two sentinel words around the destination']
 
+def c09(prop, tier, verdict):
+    cov, _ = eng_disp.run(prop, tier, verdict)
+    pcov, _ = eng_plug.run(prop, tier, verdict)
+    cov.update(pcov)
+    cov['traces_validated_against_impl'] += pcov['plug_traces']
+    cov['evaluations'] += pcov['plug_scenarios']
+    cov['distinct_nontrivial'] += pcov['plug_nontrivial']
+    return 'model_checking', cov, DISP_ASSUME + ['placement trees: 0-2 global-left, 0-2 global-right, 0-3 nested groups with 0-1 plugin, 1-2 sibling handlers with 0-1 plugin, optionally one global plugin appended after the routes exist (its hooks on route chains are unconstrained)']
+
 CHECKS = {
     'C01': c01,
     'C11': c11,
@@ -81,5 +90,5 @@ CHECKS = {
     'C07': c07,
     'C03': c_disp,
     'C04': c_disp,
-    'C09': c_disp,
+    'C09': c09,
 }
